@@ -31,6 +31,7 @@ structure XS where
   wfr : Bool := false
   itemsSized : Bool := false
   returned : Bool := false
+  bytesSized : Bool := false
   direct : Bool := false   -- no sending queue, no batcher: no obsQueue, every Send passes obsReportSender once
   tevs : List OtelVerif.C03.Replay.TEv := []
 
@@ -43,6 +44,7 @@ def expHandler : Handler XS where
       | some p, some q, some w =>
         ({ s with persistent := p == 1, batch := (kvNat rest "batch").getD 0, wrap := kvNat rest "wrap" == some 1,
                   direct := q == 0 && (kvNat rest "batch").getD 0 == 0,
+                  bytesSized := kv rest "sizer" == some "bytes",
                   consumers := (kvNat rest "consumers").getD 1, retry := kvNat rest "retry" == some 1,
                   wfr := w == 1 || q == 0, itemsSized := kv rest "sizer" == some "items" && q == 1 }, [])
       | _, _, _ => (s, ["obs bad-op"])
@@ -175,7 +177,7 @@ def expHandler : Handler XS where
       -- the model's `qsize` (released by `completedBy`, i.e. when every piece of a request has ended its flight) plus the
       -- requests that sit in the real queue but that the lazy replay has not enqueued yet
       let pGaugeLts :=
-        if s.persistent || (batching && !s.wrap) || s.direct then "prop gaugelts=skipped" else
+        if s.persistent || (batching && !s.wrap) || s.direct || s.bytesSized then "prop gaugelts=skipped" else
         let tr := s.tevs.reverse
         let rc : OtelVerif.C03.Replay.RCfg :=
           { cfg := { persistent := s.persistent, batching := batching, retry := s.retry, wfr := s.wfr, itemsSized := s.itemsSized }
